@@ -271,6 +271,8 @@ def _proj_cfgs():
         out.append({"shape": (2, 1, 2), "axes": axes})
     out.append({"shape": (1, 2, 1, 2), "axes": (1, 3)})
     out.append({"shape": (1, 2, 1, 2), "axes": (3, 0, 1)})
+    out.append({"shape": (2, 1, 2), "axes": ("z",), "names": ("", "", "z")})      # unnamed axes before the one addressed by name
+    out.append({"shape": (2, 1, 2), "axes": ("y", 2), "names": ("", "y", "")})
     return out
 
 
@@ -287,7 +289,7 @@ class _projection:
         c = b.cfg
         d = len(c.shape)
         bins = nd_binnings(b, c.shape, ["static"] * d)
-        meta = {"name": "nm", "axis_names": NAMES[:d]}
+        meta = {"name": "nm", "axis_names": tuple(getattr(c, "names", NAMES[:d]))}
         return dict(self=histnd(b, "h", bins, c.shape, meta=meta), axes=tuple(c.axes))
 
     def invoke(I, fn, a, cfg):
@@ -299,7 +301,8 @@ class _projection:
     def _(a, old, result):
         shape = shape_of(attr(old.self, "_frequencies"))
         d = len(shape)
-        kept = sorted(NAMES.index(x) if isinstance(x, str) else x for x in old.axes)
+        names0 = tuple(attr(old.self, "_meta_data")["axis_names"])
+        kept = sorted(names0.index(x) if isinstance(x, str) else x for x in old.axes)
         f0 = attr(old.self, "_frequencies")
         e0 = attr(old.self, "_errors2")
         wf, we = [], []
@@ -313,7 +316,7 @@ class _projection:
             we.append(se)
         cs = [shape_of(attr(result, "_frequencies")) == tuple(shape[k] for k in kept), same(F(result), wf), same(E(result), we),
               total(F(result)) == total(F(old.self)),
-              tuple(attr(result, "_meta_data")["axis_names"]) == tuple(NAMES[k] for k in kept),
+              tuple(attr(result, "_meta_data")["axis_names"]) == tuple(names0[k] for k in kept),
               typename(result) == {1: "Histogram1D", 2: "Histogram2D"}.get(len(kept), "HistogramND")]
         for pos, k in enumerate(kept):
             cs.append(same_binning(attr(old.self, "_binnings")[k], attr(result, "_binnings")[pos]))
@@ -331,16 +334,18 @@ class _projection_refuse:
     bound_note = BOUND
 
     def configs():
-        return [{"axes": ()}, {"axes": (0, 0)}, {"axes": (2,)}, {"axes": ("nope",)}, {"axes": (-1,)}, {"axes": (0, "x")}]
+        return [{"axes": ax, "cls": cls} for ax in ((), (0, 0), (2,), ("nope",), (-1,), (0, "x"), ("y", "y"))
+                for cls in (None, "PolarHistogram")]
 
     def inputs(b):
         bins = nd_binnings(b, (2, 1), ["static"] * 2)
-        return dict(self=histnd(b, "h", bins, (2, 1), meta={"name": None, "axis_names": ("x", "y")}), axes=tuple(b.cfg.axes))
+        cls = ("physt.special_histograms:" + b.cfg.cls) if b.cfg.cls else None
+        return dict(self=histnd(b, "h", bins, (2, 1), cls=cls, meta={"name": None, "axis_names": ("x", "y")}), axes=tuple(b.cfg.axes))
 
     def invoke(I, fn, a, cfg):
         if I is not None:
-            return I.call(fn, [a.self] + list(a.axes), {})
-        return fn(a.self, *a.axes)
+            return I.call(I.getattr(a.self, "projection"), list(a.axes), {})
+        return a.self.projection(*a.axes)
 
     @raises(ValueError, "empty_duplicate_or_unknown_axes_refused", state=lambda a, old: same_hist(old.self, a.self))
     def _(o):
